@@ -18,6 +18,8 @@ Hypotheses are exactly the documented contract: moduli pairwise coprime
 import GivaroModel.Lemmas.CRTSys
 import GivaroModel.Lemmas.CRTPoly
 import GivaroModel.Lemmas.CRTOps
+import GivaroModel.Lemmas.CRTDom
+import GivaroModel.Lemmas.CRTFixed
 namespace Givaro.Props.C14
 open Givaro.Model.CRT
 open Givaro.Lemmas.CRT
@@ -212,6 +214,80 @@ theorem functor_congruences (cof : Int → Int → Int) (hcof : CofOK cof) (M d 
     (craApply (craInit cof M d) d A e - A) % M = 0 ∧ (craApply (craInit cof M d) d A e - e) % d = 0 ∧
     (craApplyNoReduce (craInit cof M d) A e - A) % M = 0 ∧ (craApplyNoReduce (craInit cof M d) A e - e) % d = 0 :=
   cra_congruences hcof hd (Int.isCoprime_iff_gcd_eq_one.mpr hco) A e
+
+/-! ## ChineseRemainder over any residue domain meeting the init/convert contract, whatever its storage
+
+`ResidueDom` (Model/CRT.lean): the functor reaches its `Domain` only through `init`, `convert`, `sub`, `inv` on opaque element codes
+(Montgomery form, discrete logarithms, …).  `DomOK D` is the contract: `convert` returns canonical integers, `convert ∘ init` is
+reduction mod `d` (C04), `sub`/`inv` are subtraction / inversion of the residues the codes stand for (C03/C05/C07). -/
+
+/-- both variants: the lift is `≡ A (mod M)` and its canonical remainder mod `d` *is* `convert e` -/
+theorem functor_congruences_any_domain (D : ResidueDom) (hD : DomOK D) (M A e : Int) (hco : Int.gcd D.d M = 1) :
+    (craApplyD D (craInitD D M) A e - A) % M = 0 ∧ craApplyD D (craInitD D M) A e % D.d = D.convert e ∧
+    (craApplyNoReduceD D (craInitD D M) A e - A) % M = 0 ∧ craApplyNoReduceD D (craInitD D M) A e % D.d = D.convert e :=
+  cra_congruences_dom hD (Int.isCoprime_iff_gcd_eq_one.mpr hco) A e
+
+/-- the integer returned does not depend on the storage: it is what the canonical-storage model returns for the residue `convert e` -/
+theorem functor_any_domain_is_canonical_model (D : ResidueDom) (hD : DomOK D) (cof : Int → Int → Int) (hcof : CofOK cof)
+    (M A e : Int) (hco : Int.gcd D.d M = 1) :
+    craInitD D M = craInit cof M D.d ∧
+    craApplyD D (craInitD D M) A e = craApply (craInit cof M D.d) D.d A (D.convert e) ∧
+    craApplyNoReduceD D (craInitD D M) A e = craApplyNoReduce (craInit cof M D.d) A (D.convert e) :=
+  cra_dom_eq_canonical hD hcof (Int.isCoprime_iff_gcd_eq_one.mpr hco) A e
+
+/-- the contract is met by canonical storage and by Montgomery storage with any radix `R` invertible mod `d` -/
+theorem residue_domain_contract_instances (cof : Int → Int → Int) (hcof : CofOK cof) (d R Rinv : Int) (hd : 0 < d)
+    (hR : (Rinv * R) % d = 1 % d) : DomOK (canonicalDom cof d) ∧ DomOK (montgomeryDom cof d R Rinv) :=
+  ⟨canonicalDom_ok hcof hd, montgomeryDom_ok hcof hd hR⟩
+
+/-! ## RNSsystemFixed: the constructor's table, the recombination tree, the final Garner step
+
+`FixedHist`: construction from primes, copy construction, assignment, earlier conversions; `h.primes` the moduli it was built from. -/
+
+/-- for every number of moduli (complete trees — 2, 4, 8, 16, … — included): the result is the integer of `[0, ∏m)` with the given
+    residues, it is the only one, and it is what `RNSsystem`'s Garner conversion returns on the same input -/
+theorem fixed_crt_exact (cof : Int → Int → Int) (hcof : CofOK cof) (h : FixedHist) (rs : List Int) (hne : h.primes ≠ [])
+    (hco : PairwiseCoprime h.primes) (hcan : Canon h.primes rs) :
+    let x := ((h.eval cof).rnsToRing cof rs).2
+    (0 ≤ x ∧ x < prod h.primes) ∧ List.Forall₂ (fun p r => x % p = r) h.primes rs ∧
+    (∀ y : Int, 0 ≤ y ∧ y < prod h.primes → (∀ p ∈ h.primes, y % p = x % p) → y = x) ∧
+    x = ((RnsSys.ofPrimes h.primes).rnsToRing cof rs).2 := by
+  have hans := (fixedHist_good cof h).answer rs
+  have r := fixed_result hcof h.primes rs hne hco.isCoprime hcan
+  simp only at r ⊢
+  rw [hans]
+  refine ⟨r.1, r.2, ?_, ?_⟩
+  · intro y hy hres
+    exact crt_unique _ hco.isCoprime y _ hy r.1 hres
+  · have g := rns_mixed_radix_exact cof hcof (RnsHist.mk h.primes) rs hco hcan
+    simp only [RnsHist.eval, RnsSys.ofPrimes] at g
+    apply g.2.2 _ r.1
+    intro p hp
+    have : ∀ (x y : Int) (ps rs : List Int), List.Forall₂ (fun p r => x % p = r) ps rs →
+        List.Forall₂ (fun p r => y % p = r) ps rs → ∀ p ∈ ps, x % p = y % p := by
+      intro x y ps rs hx
+      induction hx with
+      | nil => intro _ p hp; simp at hp
+      | cons h1 _ ih =>
+        intro hy p hp
+        cases hy with
+        | cons h2 hys =>
+          rcases List.mem_cons.mp hp with h3 | h3
+          · subst h3; rw [h1, h2]
+          · exact ih hys p h3
+    exact this _ _ _ _ r.2 g.2.1 p hp
+
+/-- the answer does not depend on how the object was obtained -/
+theorem fixed_history_independent (cof : Int → Int → Int) (h1 h2 : FixedHist) (hp : h1.primes = h2.primes) (rs : List Int) :
+    ((h1.eval cof).rnsToRing cof rs).2 = ((h2.eval cof).rnsToRing cof rs).2 := by
+  rw [(fixedHist_good cof h1).answer rs, (fixedHist_good cof h2).answer rs, hp]
+
+/-- the table the constructor builds by carries is the closed form: level `L` stores the `L`-fold pairwise products at even
+    positions and the recombination constants `(p0⁻¹ mod p1)·p0` at odd positions -/
+theorem fixed_table_closed_form (cof : Int → Int → Int) (ps : List Int) (hne : ps ≠ []) :
+    fixedBuild cof ps = levelsFrom cof ps ∧ ∀ L, (fixedBuild cof ps).getD L [] = encode cof (pairProd^[L] ps) := by
+  refine ⟨fixedBuild_eq cof hne, fun L => ?_⟩
+  rw [fixedBuild_eq cof hne, levelsFrom_getD]
 
 /-! ## mixed-radix digits: range, uniqueness, canonical expansion; the value is Mathlib's Chinese remainder -/
 
@@ -456,6 +532,18 @@ example :
   decide
 example : PairwiseCoprime [7, 11, 13] ∧ natPairs [7, 11, 13] [3, 5, 6] = [(7, 3), (11, 5), (13, 6)] := by
   unfold PairwiseCoprime; decide
+
+-- RNSsystemFixed on 4 (complete tree), 3 and 5 moduli, through copies and earlier conversions
+example : ((FixedHist.copy (.use (.mk [7, 11, 13, 17]) [1, 2, 3, 4])).eval cofEuclid |>.rnsToRing cofEuclid [3, 5, 6, 7]).2 = 500 := by
+  decide
+example : ((FixedHist.assign (.mk [2, 3]) (.mk [7, 11, 13])).eval cofEuclid |>.rnsToRing cofEuclid [3, 5, 6]).2 = 500 := by decide
+example : ((FixedHist.mk [2, 3, 5, 7, 11]).eval cofEuclid |>.rnsToRing cofEuclid [0, 2, 0, 3, 5]).2 = 500 := by decide
+example : fixedBuild cofEuclid [2, 5, 7, 3] = [[2, 6, 7, 7], [10, 190], [210]] := by decide
+-- Montgomery storage, d = 13, R = 16 ≡ 3, R⁻¹ = 9: lifting A = 38 (mod 77) with the element whose value is 6
+example : ((9 : Int) * 3) % 13 = 1 % 13 := by decide
+example : craApplyD (montgomeryDom cofEuclid 13 3 9) (craInitD (montgomeryDom cofEuclid 13 3 9) 77) 38
+    ((montgomeryDom cofEuclid 13 3 9).init 6) = 6506 ∧ (montgomeryDom cofEuclid 13 3 9).convert ((montgomeryDom cofEuclid 13 3 9).init 6) = 6 := by
+  decide
 
 -- Poly1CRT over Z/7, points 1,2,4, residues of 3X²+5X+2
 instance : Fact (Nat.Prime 7) := ⟨by decide⟩
